@@ -8,10 +8,10 @@ _CSYNC_RULE = ("implementation-driven random gate-level histories (Lock/TryLock 
 _CSYNC_MODELS = [
     dict(name="rwmutex", pkg="./csyncx", test="TestRWMutex", coq_mod="CSync.RWSpec", run_check="run_check_rwmutex",
          corpus="rwmutex", quick_n=1500, thorough_n=150000, nontrivial=nt_sched, rule=_CSYNC_RULE,
-         free_search=dict(test="TestRWMutexFree", props={"C01": [5], "C02": [6]})),
+         free_search=dict(test="TestRWMutexFree", props={"C01": [5], "C02": [6]}), free_always=True),
     dict(name="mutex", pkg="./csyncx", test="TestMutex", coq_mod="CSync.MSpec", run_check="run_check_mutex",
          corpus="mutex", quick_n=1500, thorough_n=150000, nontrivial=nt_sched, rule=_CSYNC_RULE,
-         free_search=dict(test="TestMutexFree", props={"C01": [5], "C02": [6]})),
+         free_search=dict(test="TestMutexFree", props={"C01": [5], "C02": [6]}), free_always=True),
 ]
 
 PROPS = {
